@@ -15,6 +15,39 @@ def run_contracts(ctx, rep, cfg=None, rule="CONTRACT", select=None, floor=60):
         best = max(best, _run_contracts(ctx, rep, c_, rule, seen, select))
     rep.rule("PRECOND", "see CONTRACT: parameter contracts are checked at every call site")
     rep.floor(rule + " stores and calls", best, floor)
+    if select is None:
+        public_precond(ctx, rep)
+
+
+def public_precond(ctx, rep, cfg="Q", rule="PUBLIC-PRECOND"):
+    """a parameter contract is an assumption about callers; callers outside the crate promise nothing"""
+    from . import e2, e1_auto
+    rep.rule(rule, "every exported function that carries a parameter contract establishes that contract itself: analysed WITHOUT its "
+                   "own contract (arguments unconstrained, as an external caller may pass them) it has no failing ranged-integer "
+                   "obligation - its own range tests (riN::contains, explicit comparisons followed by panic!) must cover the contract; "
+                   "otherwise a release build, where the ranged integers' debug assertions are gone, accepts out-of-range arguments "
+                   "that the documentation says panic")
+    prog = ctx.prog(cfg)
+    A2 = e1_auto.Auto(prog)
+    A2.infer_params(ctx.e1(cfg).cg)
+    pub = [p for p in C.PARAM if ("jiff::" + p) in prog.fns and prog.fns["jiff::" + p].get("vis") == "pub" and prog.fns["jiff::" + p].get("reachable")]
+    for p in pub:
+        A2.param_contracts.pop(p, None)
+    n = 0
+    for p in sorted(pub):
+        f = prog.fns["jiff::" + p]
+        A2._an.pop(f.key, None)
+        _an, obl = e2.analyse(f, A2)
+        n += 1
+        bad = [(k, d, ln) for (k, _bi, ok, d, ln, _tag) in obl if not ok]
+        key = p.split("::")[-2] + "::" + p.split("::")[-1] if "::" in p else p
+        if bad:
+            rep.violation(rule, key, "without its parameter contract %s has %d failing obligation(s), e.g. %s: %s - the function does not "
+                          "validate what its documentation says it rejects" % (p, len(bad), bad[0][0], bad[0][1][:110]),
+                          "%s:%s" % (f.file, bad[0][2]))
+        else:
+            rep.ok(rule, key, how="%d ranged obligation(s) hold for unconstrained arguments" % len(obl), loc=f.loc())
+    rep.floor(rule + " functions", n, 5)
 
 
 class _Dedup:
